@@ -1025,6 +1025,18 @@ example : Time.parse (Time.format 63926283060120000000) = some 63926283060120000
 example : AllWf (runCmd (batchA ++ batchB) { agent := "ag-2", times := [600] } (.claimOldest "")).log :=
   C03_commands_write_recoverable_events _ (allWf_append batchA_wf batchB_wf) _ (by intro t ht; simp at ht; subst ht; decide) _
 
+/-- C12: a two-command history as bytes: the file decodes to the log the commands computed -/
+def envA : Env := { agent := "ag-1", times := [100, 101, 102], ids := ["AAAAAA", "BBBBBB"], uuids := ["u1", "u2"] }
+def reqA : Request := .newTask { bodyStdin := false, piped := true, flags := {}, stdinText := "", json := some { title := some "first", state := some "doing", claim := some "ag-1" } }
+theorem envA_T : EnvT envA := by intro t ht; simp [envA] at ht; rcases ht with rfl | rfl | rfl <;> decide
+theorem one_step_exists : ∃ limit, FileLog limit (runCmd [] envA reqA).log (fileAfter ets [] (runCmd [] envA reqA).write) := by
+  obtain ⟨l, hl⟩ := short_exists (encodeEvent ets) (runCmd [] envA reqA).log
+  exact ⟨l, .step envA reqA ets .init envA_T (fun e he => (hl e he).2)⟩
+example : ∃ limit, readEvents classifyLine limit (fileAfter ets [] (runCmd [] envA reqA).write) = .ok (runCmd [] envA reqA).log := by
+  obtain ⟨l, h⟩ := one_step_exists
+  exact ⟨l, (C12_file_decodes_to_the_log h).1⟩
+example : (runCmd [] envA reqA).log.length = 3 := by decide
+
 end JsonWitness
 
 end Witness
